@@ -29,7 +29,7 @@ SHRINK_LISTS = ("ops", "meas")
 
 EXTRA = ["decompose", "defer_measurements", "split_non_commuting", "split_to_single_terms", "diagonalize_measurements",
          "broadcast_expand", "param_shift", "finite_diff", "spsa_grad", "hadamard_grad", "param_shift_hessian",
-         "metric_tensor", "adjoint_metric_tensor", "transpile", "fold_global", "insert", "add_noise", "map_wires",
+         "metric_tensor", "adjoint_metric_tensor", "transpile", "transpile", "transpile", "fold_global", "insert", "add_noise", "map_wires",
          "convert_to_numpy_parameters", "sign_expand", "dynamic_one_shot", "clifford_t_decomposition", "commutation_dag",
          "circuit_spectrum", "snapshots", "to_zx", "parity_matrix", "phase_polynomial", "cut_circuit", "mitigate_with_zne",
          "preprocess:default.qubit", "preprocess:default.mixed", "preprocess:reference.qubit", "pipeline"]
@@ -103,6 +103,17 @@ def _extra_case(draw, name):
                                                          "split_non_commuting", "undo_swaps", "combine_global_phases"]), min_size=2, max_size=3))
     if name == "transpile":
         opts["edges"] = [[i, i + 1] for i in range(n - 1)]
+        opts["device"] = draw(st.sampled_from([None, "default.qubit", "default.mixed"]))
+        if opts["device"]:
+            pool1 = {k: gen.ALL_GATES[k] for k in ("RX", "RY", "Hadamard", "CNOT", "CZ", "S")}
+            if draw(st.booleans()):
+                ops = draw(gen.op_list(wires, pool1, 6, p_derive=0.0))
+            meas = [draw(st.sampled_from([{"mp": "probs", "w": None}, {"mp": "state"}, {"mp": "sample", "w": None},
+                                          {"mp": "expval", "obs": {"op": "PauliZ", "w": [wires[0]]}}]))]
+            if meas[0]["mp"] == "sample":
+                shots = 10
+            elif meas[0]["mp"] == "state":
+                shots = None
     if name == "fold_global":
         opts["scale"] = draw(st.sampled_from([1, 2, 3, 1.5, 2.7]))
     if name == "map_wires":
@@ -223,7 +234,8 @@ def _apply(spec, tape):
     if name == "adjoint_metric_tensor":
         return qp.adjoint_metric_tensor(tape)
     if name == "transpile":
-        return T.transpile(tape, coupling_map=[tuple(e) for e in o["edges"]])
+        dev = qp.device(o["device"], wires=len(spec["wires"]) + 1) if o.get("device") else None
+        return T.transpile(tape, coupling_map=[tuple(e) for e in o["edges"]], device=dev)
     if name == "fold_global":
         return qp.noise.fold_global(tape, o["scale"])
     if name == "insert":
